@@ -4,6 +4,8 @@
 // unification tables read through the IPR_VERIF hook at quiescent points.
 #include "common.hpp"
 #include "inspect.hpp"
+#include "successive.hpp"
+#include <optional>
 #include <ipr/impl>
 #include <unordered_map>
 #include <algorithm>
@@ -469,7 +471,7 @@ static void body(Ctx& C)
    C.assume("node identity (address) is the observable; keys use addresses for equality only");
    C.assume("get_product/get_sum(const Sequence&) are only given sequences owned by the Lexicon");
    for (int c = 0; c < NCTOR; ++c) { C.need(std::string("distinct_keys:") + ctor_name[c]); C.need(std::string("re_requests:") + ctor_name[c]); }
-   C.need("seq_entry_point_sequence"); C.need("seq_entry_point_warehouse"); C.need("table_validations");
+   C.need("seq_entry_point_sequence"); C.need("seq_entry_point_warehouse"); C.need("table_validations"); C.need("successive_lexicons_in_one_slot"); C.need("mirror_requests");
    for (int i = 0; i < 4; ++i) C.need(std::string("fn_overload_") + std::to_string(i));
 
    const int histories = C.thorough ? 12 : 3;
@@ -479,6 +481,23 @@ static void body(Ctx& C)
    const char* orders[] = {"ascending", "descending", "organ-pipe"};
    structured_history(seeds.next(), C.thorough ? 20000 : 1500, orders[C.worker % 3]);
    if (C.thorough) for (auto o : orders) structured_history(seeds.next(), 60000, o);
+   // Lexicons that follow one another in ONE storage slot on this thread; each opens and closes with the same requests over
+   // process-wide operands, so that every constructor's first request of a new Lexicon equals its last request of the previous
+   // one: the answer must come from the new Lexicon's own table (same node when asked again) and be a live node
+   {
+      std::optional<impl::Lexicon> slot;
+      long long made = 0;
+      for (int round = 0; round < (C.thorough ? 200 : 24); ++round) {
+         slot.emplace();
+         auto rep = [&](const std::string& k, const std::string& m) { C.viol(k, m + " (Lexicon number " + std::to_string(round + 1) + " in one storage slot)"); };
+         made += mirror_requests(*slot, rep);
+         Rng r(seeds.next());
+         for (int k = 0; k < 40; ++k) { auto& t = k % 2 ? static_cast<const Lexicon&>(*slot).long_type() : static_cast<const Lexicon&>(*slot).double_type(); slot->get_pointer(slot->get_reference(t)); slot->get_qualified(Qualifiers(1 + r.below(7)), t); }
+         made += mirror_requests(*slot, rep);
+         C.count("successive_lexicons_in_one_slot"); C.eval(hash_mix(0x51077, std::uint64_t(round)));
+      }
+      C.count("mirror_requests", made);
+   }
 }
 
 int main(int argc, char** argv) { return guarded_main(argc, argv, body); }
